@@ -2,7 +2,9 @@
 """usage: bin/triage.py <ID> [filter]  — groups the unknown violations of the last run"""
 import json,sys,re,collections
 pid=sys.argv[1]; flt=sys.argv[2] if len(sys.argv)>2 else ''
-vs=json.load(open(f'/verif/replays/{pid}/_all.json'))
+import os
+fn=f"/verif/replays/{pid}/_all.json"
+vs=json.load(open(fn)) if os.path.exists(fn) else []
 g=collections.OrderedDict()
 for v in vs:
     cell=v['cell'].split('#')[0]
